@@ -158,6 +158,28 @@ func init() {
 				fail(*f)
 			}
 		}
+		// EVERY listed id once beside a partner of each kind, through every entry point (code that treats some ids specially —
+		// deprecated ids, ids at the end of a version group, ids with a replacement — indexes tables with what it finds)
+		{
+			partners := []string{"GPL-2.0-only", "MIT+", "LicenseRef-a", "GPL-3.0-or-later WITH Classpath-exception-2.0", "Apache-2.0-or-later"}
+			ids := append(append([]string{}, tblActive...), tblDeprecated...)
+			for i, id := range ids {
+				id = strings.TrimSuffix(id, "+")
+				pa := partners[i%len(partners)]
+				pb := partners[(i/len(partners)+1)%len(partners)]
+				for _, text := range []string{id + " OR " + pa, pb + " AND (" + id + " OR " + pa + ")", id + "+ AND " + pb, id + " WITH " + tblExceptions[i%len(tblExceptions)] + " OR " + pa} {
+					count("every_id_with_partner")
+					if f := c03Probe(text, true); f != nil {
+						fail(*f)
+					}
+					for _, l := range [][]string{{id}, {pa, id + "+"}, {id, pb, id}} {
+						if r := implSat(text, l); r.panicv != nil {
+							fail(failure{Stream: "oracle", What: fmt.Sprintf("Satisfies panicked: %v", r.panicv), Case: &kase{Expr: text, ExprHex: hx(text), Allowed: l}, Impl: "PANIC"})
+						}
+					}
+				}
+			}
+		}
 		// words that mean something in SPDX documents or package metadata but are no license ids, in every argument position
 		for _, wd := range specialWords {
 			for _, text := range []string{wd, "MIT OR " + wd, "(" + wd + ")", wd + "+", "MIT WITH " + wd, wd + " WITH " + wd} {
